@@ -132,7 +132,7 @@ func (bA *BitArray) Or(o *BitArray) *BitArray {
 	bA.mtx.Lock()
 	defer bA.mtx.Unlock()
 	c := bA.copyBits(MaxInt(int(bA.Bits), int(o.Bits)))
-	for i := 0; i < len(c.Elems); i++ {
+	for i := 0; i < len(c.Elems) && i < len(o.Elems); i++ {
 		c.Elems[i] |= o.Elems[i]
 	}
 	return c
